@@ -158,6 +158,12 @@ class Env:
                             '<!ENTITY e "INTERNALPAYLOAD">]>' % (root, root, root), '&e;', True),
             'extdtd': ('<!DOCTYPE %s SYSTEM "%s">' % (root, c), '', True),
             'extdtd_public': ('<!DOCTYPE %s PUBLIC "-//x//y" "%s">' % (root, c), '', True),
+            # standalone documents: the parser does not report the external subset as an external entity reference
+            'extdtd_standalone': ('<?xml version="1.0" standalone="yes"?><!DOCTYPE %s SYSTEM "%s">' % (root, c), '', True),
+            'extdtd_public_standalone': ('<?xml version="1.0" standalone="yes"?><!DOCTYPE %s PUBLIC "-//x//y" "%s">'
+                                         % (root, c), '', True),
+            'standalone_clean': ('<?xml version="1.0" standalone="yes"?><!DOCTYPE %s [<!ELEMENT %s ANY>]>' % (root, root),
+                                 '', False),
             'doctype_only': ('<!DOCTYPE %s [<!ELEMENT %s ANY>]>' % (root, root), '', False),
             'clean': ('', '', False),
         }
@@ -214,6 +220,9 @@ def run_instance(env, mode, kind, prolog, body_ref, has_decl, encoding='utf-8', 
     """One cell: instance role.  Returns violation records."""
     global _EVENTS
     out = []
+    if prolog.startswith('<?xml'):
+        if encoding != 'utf-8' or bom or pad:
+            return out          # the payload carries its own XML declaration: utf-8, unpadded cells only
     xmldecl = '<?xml version="1.0" encoding="%s"?>' % encoding if encoding != 'utf-8' or pad else ''
     text = '%s%s%s<r>%sok</r>' % (xmldecl, pad, prolog, body_ref)
     if encoding == 'utf-8':
